@@ -41,21 +41,22 @@ func flipBit(t []byte, bit int) []byte {
 func genuine(id int) *Mut { return &Mut{Tok: id, Class: "genuine", Same: true} }
 
 func (r *run) usage() {
-	r.reuseSigner()
-	r.reuseSessions()
-	r.reuseTimeSigner()
-	r.reuseRSATime()
-	r.reuseHS256()
-	r.verifierShapes()
-	r.cardShapes()
-	r.rotation()
-	r.signerShapes()
-	r.claimsNil()
-	r.gateShapes()
-	r.realClock()
-	r.algCross()
-	r.concurrentReuse()
-	r.passRoles()
+	r.stream("reuseSigner", r.reuseSigner)
+	r.stream("reuseSessions", r.reuseSessions)
+	r.stream("reuseTimeSigner", r.reuseTimeSigner)
+	r.stream("reuseRSATime", r.reuseRSATime)
+	r.stream("reuseHS256", r.reuseHS256)
+	r.stream("verifierShapes", r.verifierShapes)
+	r.stream("cardShapes", r.cardShapes)
+	r.stream("rotation", r.rotation)
+	r.stream("signerShapes", r.signerShapes)
+	r.stream("claimsNil", r.claimsNil)
+	r.stream("gateShapes", r.gateShapes)
+	r.stream("realClock", r.realClock)
+	r.stream("algCross", r.algCross)
+	r.stream("epochKeys", r.epochKeys)
+	r.stream("concurrentReuse", r.concurrentReuse)
+	r.stream("passRoles", r.passRoles)
 }
 
 // ---- one Signer for many calls ------------------------------------------------
